@@ -134,7 +134,7 @@ Engine MakeEngine()
     e.run = Run;
     e.describe = DescribeChainOp;
     e.chunk = 1;
-    e.quick_runs = 300;
+    e.quick_runs = 800;
     e.thorough_runs = 20000;
     e.quick_budget_s = 75;
     e.thorough_budget_s = 1200;
